@@ -477,6 +477,7 @@ def main(argv):
     t_start = time.time()
     jobs = [(pk, n, sig) for pk, n, m in ops.all_modules() if n != "isclose" for sig in m.dispatch_map]
     res = C.pool_map(shadow_worker, jobs)
+    res, _ = C.rerun_unknown(shadow_worker, jobs, res)
     # the contract of spatial.mag instantiated in the deltaangle jobs is re-discharged here (self-contained check)
     res += C.pool_map(enginea.run_variant_job, [("spatial", "mag", sig, "C08") for pk, n, m in ops.all_modules() if (pk, n) == ("spatial", "mag") for sig in m.dispatch_map])
     n_, bad_ = C.pool_map(_glue_worker, [C.seed(), C.seed() + 1])[0]
